@@ -298,6 +298,37 @@ def check(run, replay=None):
             f.write(PRELUDE + "\n".join(fns) + "\nint main() {\n" + "\n".join("  prog_%d(stdout);" % int(l.split()[0][1:]) for l in lines) + "\n  return 0;\n}\n")
         units.append((u, src, lines))
     C.adept_tu()
+    # ---- the derivative table against central differences of libm (independent of the generated table, which the model and
+    # the dual-number oracle share): every unary function at points of both signs inside its domain
+    fd_funcs = ["log", "log10", "log2", "log1p", "sin", "cos", "tan", "asin", "acos", "atan", "sinh", "cosh", "tanh", "asinh", "acosh", "atanh",
+                "exp", "fastexp", "expm1", "exp2", "sqrt", "cbrt", "erf", "erfc", "abs", "fabs"]
+    pts = [-2.3, -1.4, -0.85, -0.6, -0.3, 0.25, 0.45, 0.7, 1.3, 1.9, 2.6]
+    fd_cases = [(f, x) for f in fd_funcs for x in pts if un_eval(f, x) is not None and un_eval(f, x - 1e-4) is not None and un_eval(f, x + 1e-4) is not None]
+    fsrc = os.path.join(bd, "c01_table.cpp")
+    with open(fsrc, "w") as f:
+        f.write("#include <adept.h>\n#include <cstdio>\nusing namespace adept;\nint main() { Stack stack;\n")
+        for k, (fn, x) in enumerate(fd_cases):
+            f.write("  { adouble x = %r; stack.new_recording(); adouble y = %s(x); y.set_gradient(1.0); stack.reverse(); std::printf(\"%d %%.17g %%.17g\\n\", value(y), x.get_gradient()); }\n" % (x, fn, k))
+        f.write("  return 0; }\n")
+    fexe = os.path.join(bd, "c01_table")
+    okc, cmd, log = C.cxx(fsrc, fexe, "-O0 -w -ffp-contract=off")
+    if not okc:
+        run.finding("build:c01:table", "broken-obligation", "derivative-table program does not compile against the current tree: " + log[-400:], {"cmd": cmd})
+    else:
+        rc, so, se = C.sh(fexe, timeout=120)
+        for l in so.split("\n"):
+            t = l.split()
+            if len(t) != 3:
+                continue
+            fn, x = fd_cases[int(t[0])]
+            h = 1e-5
+            num = (un_eval(fn, x + h) - un_eval(fn, x - h)) / (2 * h)
+            got = float(t[2])
+            run.coverage["evaluations"] += 1
+            if not (abs(got - num) <= 1e-6 + 1e-5 * abs(num)) and fn != "fastexp" or (fn == "fastexp" and not (abs(got - num) <= 1e-4 * (1 + abs(num)))):
+                run.finding("table:%s" % fn, "counterexample",
+                            "d/dx %s(x) at x=%r: the recorded derivative is %.12g, the central difference of the function is %.12g" % (fn, x, got, num),
+                            {"case": "table", "function": fn, "x": x, "recorded": got, "numeric": num})
 
     def build(u):
         k, src, lines = u
@@ -373,7 +404,7 @@ def check(run, replay=None):
                                 "model Program.v/Expr.v and the implementation disagree on program %s (%s) although the derivative itself is right; "
                                 "theorems of Properties_C01.v no longer speak about this code" % (p, what),
                                 {"program": fn, "model_line": line, "correspondence": "Program.exec + Tape.rev_sweep vs adept::Stack"})
-    cov["evaluations"] = nprog
+    cov["evaluations"] = nprog + len(fd_cases)
     cov["distinct_nontrivial"] = nontriv
     cov["traces_validated_against_impl"] = nprog
     cov["samples"] = samples
@@ -383,7 +414,7 @@ def check(run, replay=None):
     cov["rule"] = ("random programs over 2-5 active inputs: assignments of expression trees of depth <= 4 (every unary function of the table, + - * / pow atan2 max min with "
                    "active/active, scalar/active, active/scalar operands), compound assignments with expressions and with passive scalars, copies, re-assignment, "
                    "constructed temporaries, scopes whose temporaries die (index recycling), branches on passive comparisons; arguments kept inside each function's "
-                   "domain by evaluating while generating. Compared: every variable's value, reverse-mode gradient of two outputs w.r.t. every variable, against the "
+                   "domain by evaluating while generating; plus the recorded derivative of every unary function at 11 points of both signs against a central difference of the libm function (independent of the generated table). Compared: every variable's value, reverse-mode gradient of two outputs w.r.t. every variable, against the "
                    "model tape and against dual-number evaluation; statement and operation counts. Non-trivial = a non-zero derivative entry compared.")
     run.assumptions += ["Gen_Ops.v is regenerated from BinaryOperation.h / UnaryOperation.h on every run",
                         "Expr.v / Program.v are hand models; tie = generated adouble programs compared with the extracted model on OCaml floats (same libm)",
